@@ -555,6 +555,25 @@ func checkC19(c *core.Ctx) {
 			}
 		}
 	}
+	// one setting spelt both ways in the same payload (nested object and dotted
+	// key): the nested form is applied first, a well-typed dotted value overrides it
+	bothVals := map[string][]string{"bool": {`false`, `true`, `"x"`, `null`}, "posint": {`7`, `9`, `-1`, `"x"`, `null`}, "nonnegint": {`7`, `9`, `"x"`, `null`}, "string": {`"/bin/x"`, `"/bin/y"`, `5`, `null`}}
+	c.Bound("both spellings", "every key x 4-5 values in the nested form x 4-5 values in the dotted form in one payload, bare and inside the hledger wrapper, at initialisation and on pull")
+	for _, k := range c19Keys {
+		for _, vn := range bothVals[k.Type] {
+			for _, vd := range bothVals[k.Type] {
+				if !c.Mine() {
+					continue
+				}
+				payload := fmt.Sprintf(`{%q:{%q:%s},%q:%s}`, k.Section, k.Name, vn, k.Section+"."+k.Name, vd)
+				for _, pl := range []string{payload, `{"hledger":` + payload + `}`} {
+					c19Run(c, dir, c19Case{Events: []c19Event{{"initialize", pl}}, Probe: false})
+					c19Run(c, dir, c19Case{Events: []c19Event{{"pull", pl}}, Probe: false})
+					c.Res.Nontrivial += 2
+				}
+			}
+		}
+	}
 	// sequences: BFS over configuration events from a 10-payload menu
 	menu := []c19Event{
 		{"pull", `{"completion":{"maxResults":3}}`},
